@@ -882,7 +882,91 @@ func chartDevs() []Dev {
 		"tplstr-self", "tplstr: \"{{ tpl .Values.tplstr . }}\"\n",
 		"deep", "x: "+deep1k+"\n",
 	)...)
+	applyTiers(d, chartPairs, chartTriples)
 	return d
+}
+
+// chartPairs selects the deviations that are combined pairwise already in the
+// quick tier (the thorough tier pairs every deviation with every other).
+// key: "file#slot" (slot deviations) or "file:" (whole-file deviations);
+// value: variant names, "*" = all.
+var chartPairs = map[string]string{
+	"Chart.yaml#apiVersion":        "missing empty v1 v3",
+	"Chart.yaml#name":              "ctrl subname template",
+	"Chart.yaml#version":           "prerelease",
+	"Chart.yaml#type":              "missing library Library",
+	"Chart.yaml#kubeVersion":       "unsat",
+	"Chart.yaml#keywords":          "null",
+	"Chart.yaml#maintainers":       "null item-fields-null",
+	"Chart.yaml#annotations":       "null",
+	"Chart.yaml#dependencies":      "toplevel-null",
+	"Chart.yaml#tail":              "dep-second-missing-chart dep-second-same-name unknown-field dup-dependencies",
+	"Chart.yaml#dep.name":          "empty",
+	"Chart.yaml#dep.version":       "missing str empty badrange star unsat caret",
+	"Chart.yaml#dep.repository":    "missing",
+	"Chart.yaml#dep.condition":     "*",
+	"Chart.yaml#dep.tags":          "null listnull emptylist nonstring missing-tag missing",
+	"Chart.yaml#dep.alias":         "alias alias-same alias-parent alias-global",
+	"Chart.yaml#dep.enabled":       "enabled-false",
+	"Chart.yaml#dep.import-values": "*",
+	"values.yaml#sub":              "*",
+	"values.yaml#tags":             "*",
+	"values.yaml#global":           "*",
+	"values.yaml#x":                "null map missing",
+	"values.yaml#tplstr":           "unclosed self nil-deref null map include-loop",
+	"values.yaml#imported":         "*",
+	"values.yaml#tail":             "*",
+	"values.yaml:":                 "empty null list emptymap multi-doc nonstring-keys merge-key",
+	"values.schema.json:":          "empty null false emptyobj ref-self ref-recursive ref-missing bad-regex absent deep",
+	"values.schema.json#x":         "type-null null false ref-self not-self type-object",
+	"values.schema.json#sub":       "*",
+	"values.schema.json#required":  "null missingprop additional-false",
+	"templates/cm.yaml#x":          "unclosed nil-deref fail required toyaml-root include-undefined include-loop template-loop tpl-loop tpl-nil files-lines-missing files-glob-bad lookup novalue index-nil subcharts-walk",
+	"templates/cm.yaml#t":          "*",
+	"templates/cm.yaml#l":          "lines-dir",
+	"templates/cm.yaml#head":       "kind-null kind-list apiversion-missing deprecated-api leading-doc-sep toplevel-list empty",
+	"templates/cm.yaml#metadata":   "null list missing name-null",
+	"templates/cm.yaml#annotations": "null list hook-null hook-unknown hook-commas weight-bad delete-policy-bad",
+	"templates/cm.yaml#data":       "doc-sep-inside",
+	"templates/cm.yaml#extra":      "second-doc-null second-doc-empty second-doc-nometadata second-doc-hook sep-no-newline",
+	"templates/cm.yaml:":           "empty only-define redefine-helper absent",
+	"templates/_helpers.tpl:":      "*",
+	"files/data.txt:":              "empty only-newline absent",
+	"charts/sub/Chart.yaml#name":   "*",
+	"charts/sub/Chart.yaml#version": "mismatch missing",
+	"charts/sub/Chart.yaml#type":   "*",
+	"charts/sub/Chart.yaml#tail":   "*",
+	"charts/sub/Chart.yaml:":       "null absent",
+	"charts/sub/values.yaml#enabled": "*",
+	"charts/sub/values.yaml#data":  "*",
+	"charts/sub/values.yaml#exports": "*",
+	"charts/sub/values.yaml#global": "*",
+	"charts/sub/values.yaml:":      "empty null list multi-doc absent",
+	"@uservalues:":                 "*",
+}
+
+// chartTriples selects the deviations combined three at a time in the
+// thorough tier: the ones that meet in dependency processing and value
+// computation (parent values x subchart values x user values x dependency
+// declaration).
+var chartTriples = map[string]string{
+	"Chart.yaml#dep.condition":       "*",
+	"Chart.yaml#dep.tags":            "null listnull nonstring missing-tag missing",
+	"Chart.yaml#dep.alias":           "alias alias-parent alias-global",
+	"Chart.yaml#dep.import-values":   "*",
+	"Chart.yaml#tail":                "dep-second-same-name",
+	"values.yaml#sub":                "*",
+	"values.yaml#tags":               "*",
+	"values.yaml#global":             "*",
+	"values.yaml#imported":           "*",
+	"values.yaml:":                   "null emptymap",
+	"charts/sub/Chart.yaml#type":     "library",
+	"charts/sub/values.yaml#enabled": "*",
+	"charts/sub/values.yaml#data":    "*",
+	"charts/sub/values.yaml#exports": "*",
+	"charts/sub/values.yaml#global":  "*",
+	"charts/sub/values.yaml:":        "null absent",
+	"@uservalues:":                   "null sub-int sub-null sub-enabled-str sub-enabled-false sub-global-int sub-data-int sub-exports-int sub-exports-exp-int global-int global-null global-g-map tags-int tags-null tags-t1-str tags-t1-false imported-int imported-null",
 }
 
 // ---------------------------------------------------------------------------
